@@ -148,7 +148,18 @@ int sx127x_shadow_spi_read_buffer(int reg, uint8_t *buffer, size_t buffer_length
 int sx127x_shadow_spi_write_register(int reg, const uint8_t *data, size_t data_length, shadow_spi_device_t *spi_device) {
   int code = sx127x_spi_write_register(reg, data, data_length, spi_device->spi_device);
 #ifndef CONFIG_SX127X_DISABLE_SPI_CACHE
-  if (code != SX127X_OK || spi_device->shadow_registers_sync[reg] == SHADOW_IGNORE) {
+  if (code != SX127X_OK) {
+    return code;
+  }
+  if (reg == REGOPMODE) {
+    // RegOpMode selects which register page (LoRa or FSK/OOK) answers at 0x0d..0x3f: forget the cached page
+    for (int i = REGFIFOADDRPTR; i <= REGIRQFLAGS2; i++) {
+      if (spi_device->shadow_registers_sync[i] == SHADOW_CACHED) {
+        spi_device->shadow_registers_sync[i] = SHADOW_NOT_CACHED;
+      }
+    }
+  }
+  if (spi_device->shadow_registers_sync[reg] == SHADOW_IGNORE) {
     return code;
   }
   memcpy(spi_device->shadow_registers + reg, data, data_length);
